@@ -694,7 +694,14 @@ def s9_every_run_reaches_the_system(prog):
         for p in rets:
             runs = p.calls(lambda e: e['name'] == 'run' and (e['path'].startswith('system::System::') or e['path'].startswith('system::par::ParSystem::') or e['path'].startswith('system::ParSystem::')
                                                                or (e['f'].get('trait') or '').endswith(('system::System', 'system::par::ParSystem', 'system::ParSystem'))))
-            if len(runs) != 1:
+            # delegation to World::run_system / run_par_system (checked above on their own) runs the system once
+            deleg = p.calls(lambda e: e['name'] in ('run_system', 'run_par_system') and e['path'].startswith('world::World::<Registry, Resources>::'))
+            if deleg and not runs:
+                if len(deleg) != 1 or not f.name == 'run' or (('ParSystem' in key) != (deleg[0]['name'] == 'run_par_system')):
+                    r.viol('S9', key + '/system-run-twice', f.loc(), 'a path through %s delegates to %s' % (key, [e['name'] for e in deleg]))
+                    break
+                continue
+            if len(runs) != 1 or deleg:
                 r.viol('S9', key + ('/system-not-run' if not runs else '/system-run-twice'), f.loc(),
                        'a path through %s returns %s: the system\'s own state and its resource views are then out of step with the sequential run' % (key, 'without running the system' if not runs else 'after running the system %d times' % len(runs)))
                 break
